@@ -108,6 +108,13 @@ def cases(tier, seed):
         for op, ar in (('neg', 1), ('reverse', 1), ('add', 2), ('gp', 2)):
             out.append(dict(kind='name-classes', cfg=cfg, op=op, arity=ar, pool=[0, 1, 2, 16, 17, 18, 10, 11, 26, 33][: (10 if tier == 'thorough' else 8)],
                             maxlen=3, kb=[1, 2]))
+    # --- re-entrancy: a wrapper that itself uses the algebra while a function is being wrapped
+    for op in BIN_OPS[:11]:
+        ks = rng.choice(keysets)
+        perms = [list(p) for p in itertools.permutations(ks)][:4]
+        out.append(dict(kind='perm-history', cfg=rng.choice(cfgs2), route='reentrant', op=op, arity=2, perms=perms, kb=[0, 3], permute_b=True))
+    for op in UN_OPS[:7]:
+        out.append(dict(kind='perm-history', cfg=rng.choice(cfgs2), route='reentrant', op=op, arity=1, perms=[[0, 3], [3, 0]]))
     # --- operator sweeps: EVERY operator on the same operands, then every one again (two operators must
     #     never share a generated-function name)
     for route in ('wrapper', 'register'):
@@ -298,6 +305,9 @@ def _run_perm(desc, V):
     route, op, arity = desc['route'], desc['op'], desc['arity']
     if route == 'wrapper':
         cfg['wrapper'] = 'wraps'
+    if route == 'reentrant':
+        cfg['wrapper'] = 'reentrant'
+        route = 'wrapper'
     alg = make_alg(cfg)          # one algebra object for the whole history
     regs = {}
     claims, snaps = [], []
